@@ -532,7 +532,7 @@ pub open spec fn close_msgs_ok(msgs: Seq<SubMsg<Empty>>, p: Proposal) -> bool {
     ensures true
 @closure 2 C15.instantiate_deposit_checked
     (res: Result<DepositInfo, DepositError>)
-    ensures res is Ok ==> deposit.amount.0 != 0 && res->Ok_0.amount == deposit.amount
+    ensures res is Ok ==> deposit.amount.0 != 0 && res->Ok_0.amount == deposit.amount && res->Ok_0.refund_failed_proposals == deposit.refund_failed_proposals
 @prefix
     broadcast use cw3_axioms;
     proof { lemma_ns3(); }
@@ -618,6 +618,103 @@ pub open spec fn dispatch_ok(s: Raw, msgs: Seq<SubMsg<Empty>>, sender: Seq<char>
     r is Ok ==> cfg_of(deps.storage.view()) is Some && r->Ok_0.weight == grp_member_now(deps.querier.world(), group_of(deps.storage.view()), voter@)
 @end
 
+
+// ===================================================================== lifecycle over histories (C05, C15)
+/// the stored status of a proposal only moves forward: Open -> Passed / Rejected / Executed, Passed -> Executed; Rejected and
+/// Executed are final
+pub open spec fn status_forward(a: Status, b: Status) -> bool {
+    a == b || a == Status::Open || (a == Status::Passed && b == Status::Executed) || a == Status::Pending
+}
+pub open spec fn same_content(p: Proposal, q: Proposal) -> bool {
+    p.title == q.title && p.description == q.description && p.msgs == q.msgs && p.expires == q.expires && p.start_height == q.start_height
+    && p.threshold == q.threshold && p.total_weight == q.total_weight && p.proposer == q.proposer && p.deposit == q.deposit
+}
+/// C05 / C15, per step and per existing proposal id
+pub open spec fn lifecycle_post(s: Raw, t: Raw, msg: ExecuteMsg, id: u64) -> bool {
+    prop_of(t, id) is Some && same_content(prop_of(s, id)->Some_0, prop_of(t, id)->Some_0)
+    && status_forward(prop_of(s, id)->Some_0.status, prop_of(t, id)->Some_0.status)
+    && (msg is Execute && msg->Execute_proposal_id == id ==> prop_of(s, id)->Some_0.status != Status::Executed && prop_of(s, id)->Some_0.status != Status::Rejected
+        && prop_of(t, id)->Some_0.status == Status::Executed)
+    && (msg is Close && msg->Close_proposal_id == id ==> prop_of(s, id)->Some_0.status != Status::Executed && prop_of(s, id)->Some_0.status != Status::Rejected
+        && prop_of(s, id)->Some_0.status != Status::Passed && prop_of(t, id)->Some_0.status == Status::Rejected)
+}
+// serves: C05 C15
+pub proof fn lemma_lifecycle_step(s: Raw, t: Raw, w: int, sender: Addr, funds: Seq<Coin>, b: &BlockInfo, msg: ExecuteMsg, id: u64)
+    requires inv(s), count(s) < u64::MAX, step_msg(s, t, w, sender, funds, b, msg), prop_of(s, id) is Some
+    ensures lifecycle_post(s, t, msg, id)
+{
+    broadcast use cw3_axioms;
+    lemma_ns3();
+    let p = prop_of(s, id)->Some_0;
+    assert(prop_inv(s, id, p));
+    match msg {
+        ExecuteMsg::Propose { title, description, msgs, latest } => {
+            let nid = (count(s) + 1) as u64;
+            assert(u64_unkb(u64_kb(nid)) != u64_unkb(u64_kb(id)));
+            assert(unpath(pkey(id)) != unpath(pkey(nid)) && unpath(pkey(id)) != unpath(count_key()) && unpath(pkey(id)) != unpath(bkey(nid, sender@)));
+        }
+        ExecuteMsg::Vote { proposal_id, vote } => {
+            let wt = choose|wt: u64| #![auto] wt >= 1 && snapshot_weight(s, w, proposal_id, sender@, wt)
+                && tally_no_overflow(prop_of(s, proposal_id)->Some_0.votes, vote, wt) && t == vote_result(s, proposal_id, sender@, vote, wt, b);
+            lemma_vote_preserves(s, proposal_id, sender@, vote, wt, b);
+            if proposal_id != id {
+                assert(u64_unkb(u64_kb(proposal_id)) != u64_unkb(u64_kb(id)));
+                assert(unpath(pkey(id)) != unpath(pkey(proposal_id)) && unpath(pkey(id)) != unpath(bkey(proposal_id, sender@)));
+            } else {
+                lemma_status_sticky(Proposal { votes: add_vote_spec(p.votes, vote, wt), ..p }, b);
+            }
+        }
+        ExecuteMsg::Execute { proposal_id } => {
+            lemma_prop_write(s, proposal_id, Proposal { status: Status::Executed, ..prop_of(s, proposal_id)->Some_0 });
+            if proposal_id == id { lemma_status_sticky(p, b); }
+        }
+        ExecuteMsg::Close { proposal_id } => {
+            lemma_prop_write(s, proposal_id, Proposal { status: Status::Rejected, ..prop_of(s, proposal_id)->Some_0 });
+        }
+        ExecuteMsg::MemberChangedHook(_) => {}
+    }
+}
+/// the status recomputed for a proposal whose stored status is not Open is that stored status (sticky)
+pub proof fn lemma_status_sticky(p: Proposal, b: &BlockInfo)
+    ensures p.status != Status::Open ==> spec_status(p, b) == p.status,
+        p.status == Status::Open ==> spec_status(p, b) == Status::Open || spec_status(p, b) == Status::Passed || spec_status(p, b) == Status::Rejected,
+{
+}
+pub struct FlexCall { pub world: int, pub sender: Addr, pub funds: Seq<Coin>, pub block: BlockInfo, pub msg: ExecuteMsg }
+/// one successful call of a history (failed calls change nothing, A1); the group contract's state `world` may differ from call to call
+pub open spec fn flex_call_at(tr: Seq<Raw>, cs: Seq<FlexCall>, k: int) -> bool {
+    inv(tr[k]) && count(tr[k]) < u64::MAX && step_msg(tr[k], tr[k + 1], cs[k].world, cs[k].sender, cs[k].funds, &cs[k].block, cs[k].msg)
+}
+// serves: C05 C15
+/// over any history a proposal, once it exists, keeps its content (messages, proposer, deposit, expiry, threshold, total) and its
+/// stored status only moves forward
+pub proof fn lemma_c05_flex_history(tr: Seq<Raw>, cs: Seq<FlexCall>, i: int, j: int, id: u64)
+    requires tr.len() == cs.len() + 1, 0 <= i <= j <= cs.len(), forall|k: int| 0 <= k < cs.len() ==> #[trigger] flex_call_at(tr, cs, k), prop_of(tr[i], id) is Some
+    ensures prop_of(tr[j], id) is Some, same_content(prop_of(tr[i], id)->Some_0, prop_of(tr[j], id)->Some_0),
+        status_forward(prop_of(tr[i], id)->Some_0.status, prop_of(tr[j], id)->Some_0.status),
+    decreases j - i
+{
+    if i < j {
+        lemma_c05_flex_history(tr, cs, i, j - 1, id);
+        assert(flex_call_at(tr, cs, j - 1));
+        lemma_lifecycle_step(tr[j - 1], tr[j], cs[j - 1].world, cs[j - 1].sender, cs[j - 1].funds, &cs[j - 1].block, cs[j - 1].msg, id);
+    }
+}
+// serves: C05 C15
+/// the proposal's messages and the deposit refund are dispatched at most once: after a successful Execute or Close of `id`
+/// (the only calls that emit the refund, `dispatch_ok`) no later Execute or Close of `id` succeeds
+pub proof fn lemma_c15_refund_once(tr: Seq<Raw>, cs: Seq<FlexCall>, i: int, j: int, id: u64)
+    requires tr.len() == cs.len() + 1, 0 <= i < j < cs.len(), forall|k: int| 0 <= k < cs.len() ==> #[trigger] flex_call_at(tr, cs, k),
+        prop_of(tr[i], id) is Some,
+        (cs[i].msg is Execute && cs[i].msg->Execute_proposal_id == id) || (cs[i].msg is Close && cs[i].msg->Close_proposal_id == id),
+    ensures !((cs[j].msg is Execute && cs[j].msg->Execute_proposal_id == id) || (cs[j].msg is Close && cs[j].msg->Close_proposal_id == id))
+{
+    assert(flex_call_at(tr, cs, i));
+    lemma_lifecycle_step(tr[i], tr[i + 1], cs[i].world, cs[i].sender, cs[i].funds, &cs[i].block, cs[i].msg, id);
+    lemma_c05_flex_history(tr, cs, i + 1, j, id);
+    assert(flex_call_at(tr, cs, j));
+    lemma_lifecycle_step(tr[j], tr[j + 1], cs[j].world, cs[j].sender, cs[j].funds, &cs[j].block, cs[j].msg, id);
+}
 
 // ===================================================================== C20: listings of cw3-flex-multisig
 @struct packages/cw3/src/query.rs ProposalListResponse
